@@ -254,6 +254,18 @@ def c02_scope(tier):
     P.append(("all-sig-gates-other", B1 + S + 'Bundle c = { ("signal-D", 4), ("signal-E", 6) };\nBundle g = (all(b) > s) : c;\n'))
     P.append(("all-const-gates-own", B1 + "Bundle g = (all(b) > 4) : b;\n"))
     P.append(("any-const-gates-own", B1 + "Bundle g = (any(b) > 10) : b;\n"))
+    # the constant after ':' of a filter: other values than the default 1, also through int variables
+    P.append(("filter-const-6", B1 + "Bundle r = (b > 4) : 6;\nBundle q = (b <= 4) : -2;\n"))
+    P.append(("filter-const-int-var", B1 + "int k = 6;\nBundle r = (b > 4) : k;\nBundle q = (b > k) : (k + 1);\n"))
+    # a bundle gated by a named or compound condition
+    P.append(("gate-by-named-condition", B1 + S + "Signal c = s > 2;\nBundle g = c : b;\n"))
+    P.append(("gate-by-compound-and", B1 + S + T + "Bundle g = (s > 2 && t < 9) : b;\n"))
+    P.append(("gate-by-compound-or", B1 + S + T + "Bundle g = (s > 2 || t < 0) : b;\n"))
+    # any()/all() inside && / || chains and compound conditions: the wildcard must not range over the other rows' signals
+    P.append(("chain-all-or-signal", B1 + S + "Signal r = (all(b) > 3) || (s < 0);\n"))
+    P.append(("chain-any-and-signal", B1 + S + "Signal r = (any(b) > 10) && (s < 9);\n"))
+    P.append(("compound-all-and-signal-value", B1 + S + V + "Signal r = (all(b) > 3 && s < 9) : v;\n"))
+    P.append(("compound-any-and-signal-const", B1 + S + "Signal r = (any(b) > 10 && s < 9) : 7;\n"))
     P.append(("zero-members", 'Bundle b = { ("signal-A", 0), ("signal-B", 5) };\nBundle r = b + 10;\nSignal q = all(b) > 3;\nSignal p = any(b) < 1;\n'))
     return P
 
